@@ -63,8 +63,9 @@ class NS:
 _TMP = []
 
 
-def put_json(eng, name, obj):
-    """Make `obj` available as a JSON file; returns its location as str."""
+def put_json(eng, name, obj, relative=False):
+    """Make `obj` available as a JSON file; returns its location as str (relative=True: a bare file name in the current
+    directory, which the concrete mode changes to a scratch directory)."""
     if eng.mods.symbolic:
         from .. import stubs
         stubs.FS[name] = [("json", obj)]
@@ -74,6 +75,9 @@ def put_json(eng, name, obj):
     p = os.path.join(d, name)
     with open(p, "w") as f:
         json.dump(obj, f, ensure_ascii=False)
+    if relative:
+        os.chdir(d)
+        return name
     return p
 
 
@@ -251,14 +255,24 @@ def build(job):
         ctx = eng.mkdict([("@context", pm)])
         rpm = eng.mkdict(list(zip(vs, ks)))
         prio = eng.mkdict([(k, [v]) for k, v in zip(ks, vs)])
-        cases = [("pm.json", pm, api.Converter.from_prefix_map), ("epm.json", epm_, api.Converter.from_extended_prefix_map),
-                 ("ctx.json", ctx, api.Converter.from_jsonld), ("rpm.json", rpm, api.Converter.from_reverse_prefix_map),
+        # (file names that merely begin like a URL scheme are still local files)
+        cases = [("https_pm.json", pm, api.Converter.from_prefix_map), ("http_epm.json", epm_, api.Converter.from_extended_prefix_map),
+                 ("ftp_ctx.json", ctx, api.Converter.from_jsonld), ("rpm.json", rpm, api.Converter.from_reverse_prefix_map),
                  ("prio.json", prio, api.Converter.from_priority_prefix_map)]
-        for name, obj, loader in cases:
-            base = snapshot_records(loader(obj))
-            loc = put_json(eng, name, obj)
-            eng.expect(records_eq(base, snapshot_records(loader(loc))), f"{loader.__name__}: loading from a str location differs from loading the object")
-            eng.expect(records_eq(base, snapshot_records(loader(api.Path(loc)))), f"{loader.__name__}: loading from a Path differs from loading the object")
+        cwd = os.getcwd()
+        try:
+            for name, obj, loader in cases:
+                base = snapshot_records(loader(obj))
+                loc = put_json(eng, name, obj, relative=True)
+                for what, arg in (("str location", loc), ("Path", api.Path(loc))):
+                    try:
+                        got = snapshot_records(loader(arg))
+                    except (ValueError, OSError) as e:
+                        eng.fail(f"{loader.__name__}: loading a local JSON file given as {what} raised {type(e).__name__}")
+                        continue
+                    eng.expect(records_eq(base, got), f"{loader.__name__}: loading from a {what} differs from loading the object")
+        finally:
+            os.chdir(cwd)
         # the file is replaced by different data of the same size with an unchanged timestamp: a load must see the new data
         if not eng.mods.symbolic and any(len(a.encode()) != len(b.encode()) for a, b in zip(vs, vs[::-1])):
             return "ok"
